@@ -112,22 +112,57 @@ Proof.
   simpl in Hm. intuition (subst; congruence).
 Qed.
 
+(* where the scan for a comment starts: the state of the literal scanner, unless the line is a
+   comment line *)
+Lemma bang_first_pad a c y : is_space c = false -> bang_first (spaces a ++ c :: y) = Ascii.eqb c bang.
+Proof. intros H. unfold bang_first. now rewrite lstrip_spaces, lstrip_ns. Qed.
+
+Lemma bang_first_spaces n : bang_first (spaces n) = false.
+Proof. unfold bang_first. rewrite <- (app_nil_r (spaces n)), lstrip_spaces. reflexivity. Qed.
+
+Lemma scan_start_code st a c y :
+  is_space c = false -> Ascii.eqb c bang = false -> scan_start (spaces a ++ c :: y) st = st.
+Proof. intros H1 H2. unfold scan_start. rewrite bang_first_pad, H2 by assumption. now destruct st. Qed.
+
+Lemma scan_start_comment st i t : scan_start (spaces i ++ bang :: t) st = None.
+Proof. unfold scan_start. rewrite bang_first_pad by reflexivity. now destruct st. Qed.
+
+Lemma first_bang_from_spaces st i n : first_bang_from st i (spaces n) = None.
+Proof.
+  revert st i. induction n as [|n IH]; intros st i; [reflexivity|].
+  change (spaces (S n)) with (" "%char :: spaces n). cbn [first_bang_from].
+  destruct st as [q|]; [apply IH|]. change (Ascii.eqb " " bang) with false. cbv iota. apply IH.
+Qed.
+
+(* with no literal open the scan is the plain one *)
+Lemma match_mark_outside c m line :
+  match_mark (c :: m) line None =
+  match first_bang line with
+  | Some i => if starts_with (bang :: c :: m) (skipn i line) then Some i else None
+  | None => None
+  end.
+Proof. reflexivity. Qed.
+
+Lemma match_com_outside line : match_com line None = first_bang line.
+Proof. reflexivity. Qed.
+
 Section CodeLine.
 
 (* g, l: a state with no pending documentation; the physical line is
-   blanks ++ core ++ blanks ++ optional comment *)
+   blanks ++ core ++ blanks ++ optional comment.  The line may start inside a literal continued
+   from the previous line (st = Some q): a comment may follow once the literal is closed *)
 Lemma step_code_line g l a core b cm :
   docbuffer g = [] -> reading_alt g = 0 -> reading_predoc l = false -> reading_predoc_alt l = 0 ->
-  nsfirst core -> nslast core -> head_is hash core = false ->
+  nsfirst core -> nslast core -> head_is hash core = false -> head_is bang core = false ->
   let st := qstate (linebuffer l) in
   st_ok st -> bang_free st core = true ->
   match cm with
   | None => True
-  | Some t => st = None /\ qrun None core = None /\ plain_comment t
+  | Some t => qrun st core = None /\ plain_comment t
   end ->
   step default_cfg g l (spaces a ++ core ++ spaces b ++ render_comment cm) = join_line g l core.
 Proof.
-  intros Hdb Hra Hrp Hrpa Hf Hl Hh st Hok Hbf Hcm.
+  intros Hdb Hra Hrp Hrpa Hf Hl Hh Hbg st Hok Hbf Hcm.
   destruct g as [db pd ra]. destruct l as [cont rp rpa lb]. simpl in *. subst db ra rp rpa.
   set (line0 := spaces a ++ core ++ spaces b ++ render_comment cm).
   (* the first non-blank character *)
@@ -135,25 +170,26 @@ Proof.
   { destruct core as [|c core']; [destruct Hf|]. simpl in Hf.
     unfold line0. simpl. destruct (strip_head a c (core' ++ spaces b ++ render_comment cm) Hf) as [y' E].
     rewrite E. simpl. exact Hh. }
+  (* the scan starts in the state the previous lines left *)
+  assert (Hss : scan_start line0 st = st).
+  { destruct core as [|c core']; [destruct Hf|]. simpl in Hf. unfold line0. cbn [app].
+    apply scan_start_code; [exact Hf|]. simpl in Hbg. now rewrite Ascii.eqb_sym. }
   (* where the first unquoted '!' is *)
-  assert (Hfb : unterminated lb = false ->
-                first_bang line0 = match cm with Some _ => Some (a + length core + b) | None => None end).
-  { intros Hu. unfold unterminated in Hu. fold st in Hu. destruct st as [q|] eqn:Est; [discriminate|].
-    unfold first_bang, line0.
-    rewrite first_bang_skip; [|exact I|apply bang_free_spaces].
-    rewrite (qrun_no_quote None (spaces a)) by apply spaces_no_quote.
-    rewrite first_bang_skip; [|exact I|exact Hbf].
+  assert (Hfb : first_bang_from st 0 line0 = match cm with Some _ => Some (a + length core + b) | None => None end).
+  { unfold line0.
+    rewrite first_bang_skip; [|exact Hok|apply bang_free_spaces].
+    rewrite (qrun_no_quote st (spaces a)) by apply spaces_no_quote.
+    rewrite first_bang_skip; [|exact Hok|exact Hbf].
     destruct cm as [t|]; simpl render_comment.
-    - destruct Hcm as (_ & Hq & _). rewrite Hq.
+    - destruct Hcm as (Hq & _). rewrite Hq.
       rewrite first_bang_skip; [|exact I|apply bang_free_spaces].
       rewrite (qrun_no_quote None (spaces b)) by apply spaces_no_quote.
       simpl. f_equal. unfold spaces. rewrite !repeat_length. lia.
-    - rewrite app_nil_r. apply first_bang_none; [apply qrun_ok; exact I|apply bang_free_spaces]. }
+    - rewrite app_nil_r. apply first_bang_from_spaces. }
   assert (Hmarks : forall m, In m ["!"%char; ">"%char; "*"%char; "|"%char] ->
-                   match_mark [m] line0 (unterminated lb) = None).
-  { intros m Hm. unfold match_mark. destruct (unterminated lb) eqn:Hu; [reflexivity|].
-    rewrite (Hfb eq_refl). destruct cm as [t|]; [|reflexivity].
-    destruct Hcm as (_ & _ & Hp).
+                   match_mark [m] line0 st = None).
+  { intros m Hm. unfold match_mark. rewrite Hss, Hfb. destruct cm as [t|]; [|reflexivity].
+    destruct Hcm as (_ & Hp).
     assert (Esk : skipn (a + length core + b) line0 = bang :: t).
     { unfold line0. simpl render_comment.
       replace (spaces a ++ core ++ spaces b ++ bang :: t) with ((spaces a ++ core ++ spaces b) ++ bang :: t)
@@ -163,13 +199,9 @@ Proof.
       { rewrite !app_length. unfold spaces. rewrite !repeat_length. lia. }
       rewrite <- Hlen, skipn_all, Nat.sub_diag. reflexivity. }
     now rewrite (plain_no_mark t _ line0 Hp Esk m Hm). }
-  assert (Hcom : match_com line0 (unterminated lb) =
-                 match cm with Some _ => Some (a + length core + b) | None => None end
-                 \/ (unterminated lb = true /\ match_com line0 (unterminated lb) = None)).
-  { unfold match_com. destruct (unterminated lb) eqn:Hu; [right; auto|left; now apply Hfb]. }
-  assert (Hcm_none : unterminated lb = true -> cm = None).
-  { intros Hu. destruct cm as [t|]; [|reflexivity]. destruct Hcm as (Hst & _).
-    unfold unterminated in Hu. fold st in Hu. rewrite Hst in Hu. discriminate. }
+  assert (Hcom : match_com line0 st =
+                 match cm with Some _ => Some (a + length core + b) | None => None end).
+  { unfold match_com. now rewrite Hss. }
   assert (Hstrip0 : cm = None -> strip line0 = core).
   { intros ->. unfold line0. simpl. rewrite app_nil_r. now apply strip_pad. }
   assert (Hfirstn : firstn (a + length core + b) line0 = spaces a ++ core ++ spaces b).
@@ -181,21 +213,19 @@ Proof.
     rewrite <- Hlen, firstn_app, firstn_all, Nat.sub_diag. simpl. now rewrite app_nil_r. }
   unfold step. cbn [docbuffer prevdoc reading_alt continued reading_predoc reading_predoc_alt linebuffer
                     docmark predocmark docmark_alt predocmark_alt default_cfg].
-  fold line0. rewrite Hhash.
+  fold line0. fold st. rewrite Hhash.
   change (s ">") with [">"%char]. change (s "|") with ["|"%char].
   change (s "*") with ["*"%char]. change (s "!") with ["!"%char].
   rewrite (Hmarks ">"%char) by (simpl; tauto).
   rewrite (Hmarks "|"%char) by (simpl; tauto).
   rewrite (Hmarks "*"%char) by (simpl; tauto).
   rewrite (Hmarks "!"%char) by (simpl; tauto).
-  cbv beta iota zeta. rewrite !if_same.
-  destruct Hcom as [Hc|[Hu Hc]]; rewrite Hc.
-  - destruct cm as [t|].
-    + cbn [Nat.ltb Nat.leb orb andb]. rewrite Hfirstn.
-      rewrite (strip_pad a core b Hf Hl).
-      destruct core as [|ch rest]; [destruct Hf|]. reflexivity.
-    + rewrite (Hstrip0 eq_refl). destruct core as [|ch rest]; [destruct Hf|]. reflexivity.
-  - rewrite (Hstrip0 (Hcm_none Hu)). destruct core as [|ch rest]; [destruct Hf|]. reflexivity.
+  cbv beta iota zeta. rewrite !if_same, Hcom.
+  destruct cm as [t|].
+  - cbn [Nat.ltb Nat.leb orb andb]. rewrite Hfirstn.
+    rewrite (strip_pad a core b Hf Hl).
+    destruct core as [|ch rest]; [destruct Hf|]. reflexivity.
+  - rewrite (Hstrip0 eq_refl). destruct core as [|ch rest]; [destruct Hf|]. reflexivity.
 Qed.
 
 End CodeLine.
@@ -211,13 +241,10 @@ Lemma step_blank g l n :
 Proof.
   intros (Hdb & Hpd & Hra) (Hrp & Hrpa) Hc.
   destruct g as [db pd ra]. destruct l as [cont rp rpa lb]. simpl in *. subst.
-  assert (Hfb : first_bang (spaces n) = None).
-  { apply first_bang_none; [exact I|apply bang_free_spaces]. }
-  assert (Hm : forall m, match_mark m (spaces n) (unterminated lb) = None).
-  { intros m. unfold match_mark. destruct (unterminated lb); [reflexivity|].
-    destruct m; [reflexivity|]. now rewrite Hfb. }
-  assert (Hcom : match_com (spaces n) (unterminated lb) = None).
-  { unfold match_com. destruct (unterminated lb); [reflexivity|exact Hfb]. }
+  assert (Hm : forall m, match_mark m (spaces n) (qstate lb) = None).
+  { intros m. unfold match_mark. destruct m; [reflexivity|]. now rewrite first_bang_from_spaces. }
+  assert (Hcom : match_com (spaces n) (qstate lb) = None).
+  { unfold match_com. apply first_bang_from_spaces. }
   unfold step. cbn [docbuffer prevdoc reading_alt continued reading_predoc reading_predoc_alt linebuffer].
   rewrite strip_spaces. cbn [first_is]. rewrite !Hm. cbv beta iota zeta. rewrite !if_same, Hcom.
   rewrite strip_spaces. cbn [andb Nat.ltb Nat.leb Nat.eqb negb orb].
@@ -225,26 +252,28 @@ Proof.
   destruct cont; reflexivity.
 Qed.
 
+(* an ordinary comment line is skipped, also between the lines of a continued literal *)
 Lemma step_comment_line g l i t :
   clean g -> idle l -> (continued l = true \/ linebuffer l = []) ->
-  unterminated (linebuffer l) = false -> plain_comment t ->
+  plain_comment t ->
   step default_cfg g l (spaces i ++ bang :: t) = SNext g l false.
 Proof.
-  intros (Hdb & Hpd & Hra) (Hrp & Hrpa) Hc Hu Hp.
+  intros (Hdb & Hpd & Hra) (Hrp & Hrpa) Hc Hp.
   destruct g as [db pd ra]. destruct l as [cont rp rpa lb]. simpl in *. subst.
   set (line0 := spaces i ++ bang :: t).
-  assert (Hfb : first_bang line0 = Some i).
-  { unfold first_bang, line0. rewrite first_bang_skip; [|exact I|apply bang_free_spaces].
+  assert (Hss : scan_start line0 (qstate lb) = None) by apply scan_start_comment.
+  assert (Hfb : first_bang_from None 0 line0 = Some i).
+  { unfold line0. rewrite first_bang_skip; [|exact I|apply bang_free_spaces].
     rewrite (qrun_no_quote None (spaces i)) by apply spaces_no_quote. simpl.
     f_equal. unfold spaces. rewrite repeat_length. lia. }
   assert (Esk : skipn i line0 = bang :: t).
   { unfold line0. rewrite skipn_app. unfold spaces at 1. rewrite <- (repeat_length " "%char i) at 1.
     rewrite skipn_all. unfold spaces. rewrite repeat_length, Nat.sub_diag. reflexivity. }
   assert (Hm : forall m, In m ["!"%char; ">"%char; "*"%char; "|"%char] ->
-               match_mark [m] line0 (unterminated lb) = None).
-  { intros m Hin. unfold match_mark. rewrite Hu, Hfb. now rewrite (plain_no_mark t i line0 Hp Esk m Hin). }
-  assert (Hcom : match_com line0 (unterminated lb) = Some i).
-  { unfold match_com. now rewrite Hu. }
+               match_mark [m] line0 (qstate lb) = None).
+  { intros m Hin. unfold match_mark. rewrite Hss, Hfb. now rewrite (plain_no_mark t i line0 Hp Esk m Hin). }
+  assert (Hcom : match_com line0 (qstate lb) = Some i).
+  { unfold match_com. now rewrite Hss. }
   assert (Hfn : firstn i line0 = spaces i).
   { unfold line0. rewrite firstn_app. unfold spaces at 1. rewrite <- (repeat_length " "%char i) at 1.
     rewrite firstn_all. unfold spaces. rewrite repeat_length, Nat.sub_diag. simpl. now rewrite app_nil_r. }
@@ -265,14 +294,44 @@ Qed.
 
 (* ---------- segments of one logical line ---------- *)
 
-Definition bline_ok (st : option ascii) (b : bline) : Prop :=
-  match b with BBlank _ => True | BComment _ t => st = None /\ plain_comment t end.
-
-(* what the first character of a line's text must be when the line does not start with '&' *)
+(* what the first character of a line's text must be when the line does not start with '&':
+   not a blank, and none of '#' (preprocessor line), '&', '!' (comment line) *)
 Definition head_ok (x : str) : Prop :=
-  nsfirst x /\ head_is hash x = false /\ head_is amp x = false.
+  nsfirst x /\ head_is hash x = false /\ head_is amp x = false /\ head_is bang x = false.
+
+(* Fortran's own rule for where commentary may stand: after a continued or final line whose end
+   lies outside a literal (wherever the line started), and as a comment line between any two lines
+   of a continued statement (also between the lines of a continued literal). *)
+Definition bline_okF (b : bline) : Prop :=
+  match b with BBlank _ => True | BComment _ t => plain_comment t end.
 
 (* st = literal state at the start of the segment *)
+Definition seg_okF (st : option ascii) (first last : bool) (sg : seg) : Prop :=
+  let st' := qrun st (sg_text sg) in
+  st_ok st /\
+  bang_free st (sg_text sg) = true /\
+  match sg_comment sg with Some t => st' = None /\ plain_comment t | None => True end /\
+  (last = false -> Forall bline_okF (sg_between sg)) /\
+  (first = true -> head_ok (sg_text sg) /\ head_is semi (sg_text sg) = false) /\
+  (first = false -> sg_amp sg = false -> head_ok (sg_text sg)) /\
+  (last = true -> nslast (sg_text sg) /\ last_is amp (sg_text sg) = false).
+Fixpoint segs_okF (st : option ascii) (first : bool) (l : list seg) : Prop :=
+  match l with
+  | [] => False
+  | [sg] => seg_okF st first true sg
+  | sg :: l' => seg_okF st first false sg /\ segs_okF (qrun st (sg_text sg)) false l'
+  end.
+Definition item_okF (it : fitem) : Prop :=
+  match it with
+  | FBlank _ => True
+  | FComment _ t => plain_comment t
+  | FLine segs => segs_okF None true segs
+  end.
+
+(* the narrower class of the first version of this development (commentary only where no literal
+   is open at the start of the line); kept for the developments stated with it (Lex/FixedProofs.v) *)
+Definition bline_ok (st : option ascii) (b : bline) : Prop :=
+  match b with BBlank _ => True | BComment _ t => st = None /\ plain_comment t end.
 Definition seg_ok (st : option ascii) (first last : bool) (sg : seg) : Prop :=
   let st' := qrun st (sg_text sg) in
   st_ok st /\
@@ -282,13 +341,38 @@ Definition seg_ok (st : option ascii) (first last : bool) (sg : seg) : Prop :=
   (first = true -> head_ok (sg_text sg) /\ head_is semi (sg_text sg) = false) /\
   (first = false -> sg_amp sg = false -> head_ok (sg_text sg)) /\
   (last = true -> nslast (sg_text sg) /\ last_is amp (sg_text sg) = false).
-
 Fixpoint segs_ok (st : option ascii) (first : bool) (l : list seg) : Prop :=
   match l with
   | [] => False
   | [sg] => seg_ok st first true sg
   | sg :: l' => seg_ok st first false sg /\ segs_ok (qrun st (sg_text sg)) false l'
   end.
+Definition item_ok (it : fitem) : Prop :=
+  match it with
+  | FBlank _ => True
+  | FComment _ t => plain_comment t
+  | FLine segs => segs_ok None true segs
+  end.
+
+Lemma seg_ok_okF st first last sg : seg_ok st first last sg -> seg_okF st first last sg.
+Proof.
+  intros (A & B & C & D & E & F & G).
+  split; [exact A|]. split; [exact B|]. split; [|split; [|split; [|split]; assumption]].
+  - destruct (sg_comment sg) as [t|]; [|exact I]. destruct C as (_ & C2 & C3). now split.
+  - intros Hl. specialize (D Hl). rewrite Forall_forall in *. intros b Hin. specialize (D b Hin).
+    destruct b as [n|i t]; [exact I|]. exact (proj2 D).
+Qed.
+
+Lemma segs_ok_okF segs : forall st first, segs_ok st first segs -> segs_okF st first segs.
+Proof.
+  induction segs as [|sg segs IH]; intros st first H; [exact H|].
+  destruct segs as [|sg2 segs].
+  - cbn [segs_ok segs_okF] in *. now apply seg_ok_okF.
+  - destruct H as (H1 & H2). split; [now apply seg_ok_okF|now apply IH].
+Qed.
+
+Lemma item_ok_okF it : item_ok it -> item_okF it.
+Proof. destruct it as [n|i t|segs]; simpl; auto. apply segs_ok_okF. Qed.
 
 Definition cont_state (buf : str) : lstate :=
   {| continued := true; reading_predoc := false; reading_predoc_alt := 0; linebuffer := buf |}.
@@ -396,12 +480,12 @@ Qed.
 
 (* the first segment, read in the initial loop state *)
 Lemma step_first_seg g last sg :
-  clean g -> seg_ok None true last sg ->
+  clean g -> seg_okF None true last sg ->
   step default_cfg g linit (render_seg_line true last sg) =
   SNext g (if last then done_state (" "%char :: sg_text sg) else cont_state (" "%char :: sg_text sg)) last.
 Proof.
   intros (Hdb & Hpd & Hra) (Hok & Hbf & Hcm & _ & Hfirst & _ & Hlast).
-  destruct (Hfirst eq_refl) as ((Hns & Hh & Ha) & _).
+  destruct (Hfirst eq_refl) as ((Hns & Hh & Ha & Hbg) & _).
   unfold render_seg_line. cbn [app].
   set (core := sg_text sg ++ (if last then [] else [amp])).
   assert (Hcf : nsfirst core).
@@ -410,6 +494,8 @@ Proof.
   { unfold core. destruct last; [rewrite app_nil_r; now apply Hlast|now apply nslast_snoc]. }
   assert (Hch : head_is hash core = false).
   { unfold core. destruct (sg_text sg); [destruct Hns|exact Hh]. }
+  assert (Hcb : head_is bang core = false).
+  { unfold core. destruct (sg_text sg); [destruct Hns|exact Hbg]. }
   assert (Hq : qrun None core = qrun None (sg_text sg)).
   { unfold core. destruct last; simpl; [now rewrite app_nil_r|]. rewrite qrun_app. simpl. apply qstep_nq. reflexivity. }
   assert (Hb : bang_free None core = true).
@@ -417,12 +503,12 @@ Proof.
     rewrite bang_free_app, Hbf. simpl. destruct (qrun None (sg_text sg)); reflexivity. }
   assert (Hcmt : match sg_comment sg with
                  | None => True
-                 | Some t => qstate (linebuffer linit) = None /\ qrun None core = None /\ plain_comment t
+                 | Some t => qrun (qstate (linebuffer linit)) core = None /\ plain_comment t
                  end).
-  { destruct (sg_comment sg) as [t|]; [|exact I]. destruct Hcm as (H1 & H2 & H3).
-    simpl. rewrite Hq. auto. }
+  { destruct (sg_comment sg) as [t|]; [|exact I]. destruct Hcm as (H2 & H3).
+    cbn [linit linebuffer]. change (qstate []) with (@None ascii). rewrite Hq. auto. }
   rewrite (step_code_line g linit (sg_ind sg) core (sg_trail sg) (sg_comment sg)
-             Hdb Hra eq_refl eq_refl Hcf Hcl Hch I Hb Hcmt).
+             Hdb Hra eq_refl eq_refl Hcf Hcl Hch Hcb I Hb Hcmt).
   unfold join_line. destruct core as [|ch rest] eqn:Ec; [destruct Hcf|].
   assert (Hamp : Ascii.eqb ch amp = false).
   { unfold core in Ec. destruct (sg_text sg) as [|c0 t0]; [destruct Hns|].
@@ -446,7 +532,7 @@ Proof. destruct a; reflexivity. Qed.
 
 (* a continuation segment, read while the statement is being continued *)
 Lemma step_cont_seg g buf last sg :
-  clean g -> seg_ok (qstate buf) false last sg ->
+  clean g -> seg_okF (qstate buf) false last sg ->
   step default_cfg g (cont_state buf) (render_seg_line false last sg) =
   SNext g (if last then done_state (next_buf buf sg) else cont_state (next_buf buf sg)) last.
 Proof.
@@ -459,6 +545,9 @@ Proof.
   assert (Hch : head_is hash core = false).
   { unfold core. destruct (sg_amp sg) eqn:Ea; [reflexivity|].
     destruct (Hhead eq_refl eq_refl) as (Hns & Hh & _). simpl. destruct (sg_text sg); [destruct Hns|exact Hh]. }
+  assert (Hcb : head_is bang core = false).
+  { unfold core. destruct (sg_amp sg) eqn:Ea; [reflexivity|].
+    destruct (Hhead eq_refl eq_refl) as (Hns & _ & _ & Hbg). simpl. destruct (sg_text sg); [destruct Hns|exact Hbg]. }
   assert (Hcl : nslast core).
   { unfold core. destruct last.
     - rewrite app_nil_r. destruct (sg_amp sg); [apply nslast_cons|]; now apply Hlast.
@@ -473,14 +562,13 @@ Proof.
     - rewrite (bang_free_amp_wrap _ (sg_text sg) (sg_amp sg) true). exact Hbf. }
   assert (Hcmt : match sg_comment sg with
                  | None => True
-                 | Some t => qstate (linebuffer (cont_state buf)) = None /\
-                             qrun None core = None /\ plain_comment t
+                 | Some t => qrun (qstate (linebuffer (cont_state buf))) core = None /\ plain_comment t
                  end).
   { cbn [cont_state linebuffer].
-    destruct (sg_comment sg) as [t|]; [|exact I]. destruct Hcm as (H1 & H2 & H3).
-    rewrite H1 in *. rewrite Hq. auto. }
+    destruct (sg_comment sg) as [t|]; [|exact I]. destruct Hcm as (H2 & H3).
+    rewrite Hq. auto. }
   rewrite (step_code_line g (cont_state buf) (sg_ind sg) core (sg_trail sg) (sg_comment sg)
-             Hdb Hra eq_refl eq_refl Hcf Hcl Hch Hok Hb Hcmt).
+             Hdb Hra eq_refl eq_refl Hcf Hcl Hch Hcb Hok Hb Hcmt).
   unfold join_line, core, next_buf.
   destruct g as [db pd ra]. simpl in Hdb, Hpd, Hra. subst.
   destruct (sg_amp sg) eqn:Ea.
@@ -490,7 +578,7 @@ Proof.
       rewrite (is_blank_nslast _ Hnl), Hla. rewrite (ne_app_nslast buf _ Hnl). reflexivity.
     + rewrite (is_blank_snoc_ns (sg_text sg) amp eq_refl), last_is_snoc, removelast_last.
       cbn [negb]. rewrite andb_false_r. reflexivity.
-  - destruct (Hhead eq_refl eq_refl) as (Hns & _ & Ha).
+  - destruct (Hhead eq_refl eq_refl) as (Hns & _ & Ha & _).
     cbn [app]. destruct (sg_text sg) as [|c0 t0] eqn:Et; [destruct Hns|].
     cbn [app]. unfold head_is in Ha. rewrite Ascii.eqb_sym in Ha. rewrite Ha.
     cbn [cont_state continued linebuffer].
@@ -505,26 +593,24 @@ Qed.
 (* ---------- a whole logical line ---------- *)
 
 Lemma loop_between g buf bl rest :
-  clean g -> Forall (bline_ok (qstate buf)) bl ->
+  clean g -> Forall bline_okF bl ->
   loop default_cfg g (cont_state buf) (map render_bline bl ++ rest)
   = loop default_cfg g (cont_state buf) rest.
 Proof.
   intros Hg H. induction H as [|b bl Hb _ IH]; [reflexivity|].
   cbn [map app loop]. destruct b as [n|i t]; cbn [render_bline].
   - rewrite step_blank; [exact IH|exact Hg|split; reflexivity|left; reflexivity].
-  - destruct Hb as (Hst & Hp).
-    rewrite step_comment_line; [exact IH|exact Hg|split; reflexivity|left; reflexivity| |exact Hp].
-    cbn [cont_state linebuffer]. unfold unterminated. rewrite Hst. reflexivity.
+  - rewrite step_comment_line; [exact IH|exact Hg|split; reflexivity|left; reflexivity|exact Hb].
 Qed.
 
 Lemma loop_cont_segs g segs : forall buf rest,
-  clean g -> segs_ok (qstate buf) false segs ->
+  clean g -> segs_okF (qstate buf) false segs ->
   loop default_cfg g (cont_state buf) (render_segs false segs ++ rest)
   = LDone g (done_state (joined_from buf segs)) rest.
 Proof.
   induction segs as [|sg segs IH]; intros buf rest Hg Hok; [destruct Hok|].
   destruct segs as [|sg2 segs].
-  - cbn [render_segs app loop]. cbn [segs_ok] in Hok.
+  - cbn [render_segs app loop]. cbn [segs_okF] in Hok.
     rewrite (step_cont_seg g buf true sg Hg Hok). reflexivity.
   - destruct Hok as (Hsg & Hrest).
     change (render_segs false (sg :: sg2 :: segs))
@@ -533,17 +619,17 @@ Proof.
     rewrite <- app_assoc. rewrite loop_between.
     + rewrite <- qstate_next_buf in Hrest. rewrite (IH (next_buf buf sg) rest Hg Hrest). reflexivity.
     + exact Hg.
-    + destruct Hsg as (_ & _ & _ & Hbt & _). rewrite qstate_next_buf. now apply Hbt.
+    + destruct Hsg as (_ & _ & _ & Hbt & _). now apply Hbt.
 Qed.
 
 Theorem loop_logical_line g segs rest :
-  clean g -> segs_ok None true segs ->
+  clean g -> segs_okF None true segs ->
   loop default_cfg g linit (render_segs true segs ++ rest)
   = LDone g (done_state (joined segs)) rest.
 Proof.
   intros Hg Hok. destruct segs as [|sg segs]; [destruct Hok|].
   destruct segs as [|sg2 segs].
-  - cbn [render_segs app loop]. cbn [segs_ok] in Hok.
+  - cbn [render_segs app loop]. cbn [segs_okF] in Hok.
     rewrite (step_first_seg g true sg Hg Hok). reflexivity.
   - destruct Hok as (Hsg & Hrest).
     change (render_segs true (sg :: sg2 :: segs))
@@ -558,13 +644,6 @@ Proof.
 Qed.
 
 (* ---------- a whole file ---------- *)
-
-Definition item_ok (it : fitem) : Prop :=
-  match it with
-  | FBlank _ => True
-  | FComment _ t => plain_comment t
-  | FLine segs => segs_ok None true segs
-  end.
 
 Lemma rev_nonempty {A} (l : list A) : l <> [] -> rev l <> [].
 Proof. intros H E. apply H. rewrite <- (rev_involutive l), E. reflexivity. Qed.
@@ -623,12 +702,12 @@ Proof.
   cbn [joined_from]. apply IH. apply (good_head_next buf sg H).
 Qed.
 
-Lemma good_head_joined segs : segs_ok None true segs -> good_head (joined segs).
+Lemma good_head_joined segs : segs_okF None true segs -> good_head (joined segs).
 Proof.
   destruct segs as [|sg segs]; [intros []|]. intros H.
   assert (Hsg : head_ok (sg_text sg) /\ head_is semi (sg_text sg) = false).
   { destruct segs; [apply H|apply (proj1 H)]; reflexivity. }
-  destruct Hsg as ((Hns & _ & _) & Hsemi).
+  destruct Hsg as ((Hns & _) & Hsemi).
   cbn [joined]. apply good_head_joined_from.
   destruct (sg_text sg) as [|c y]; [destruct Hns|].
   exists c, y. split; [left; reflexivity|]. split; [exact Hns|].
@@ -663,11 +742,11 @@ Lemma loop_skip_comment g i t rest : clean g -> plain_comment t ->
   loop default_cfg g linit ((spaces i ++ bang :: t) :: rest) = loop default_cfg g linit rest.
 Proof.
   intros Hg Hp. cbn [loop].
-  rewrite step_comment_line; [reflexivity|exact Hg|split; reflexivity|right; reflexivity|reflexivity|exact Hp].
+  rewrite step_comment_line; [reflexivity|exact Hg|split; reflexivity|right; reflexivity|exact Hp].
 Qed.
 
 Lemma read_file_fuel f : forall fuel g acc,
-  clean g -> Forall item_ok f -> count_lines f < fuel ->
+  clean g -> Forall item_okF f -> count_lines f < fuel ->
   read_fuel fuel default_cfg g (render_file f) acc = ROk (acc ++ flat_map stmts_of (file_texts f)).
 Proof.
   induction f as [|it f IH]; intros fuel g acc Hg Hok Hfuel.
@@ -689,7 +768,7 @@ Proof.
       cbn [app flat_map]. fold (file_texts f). now rewrite <- app_assoc.
 Qed.
 
-Lemma count_le_length f : Forall item_ok f -> count_lines f <= length (render_file f).
+Lemma count_le_length f : Forall item_okF f -> count_lines f <= length (render_file f).
 Proof.
   intros H. induction H as [|it f Hit _ IH]; [simpl; lia|].
   unfold render_file in *. cbn [flat_map]. rewrite app_length.
@@ -703,8 +782,8 @@ Qed.
 (* the statements extracted from a file are a function of the character streams of its
    logical lines only — whatever the indentation, trailing blanks, comments, blank lines, and
    (for '&'-led continuation) wherever the cuts are *)
-Theorem file_statements f :
-  Forall item_ok f ->
+Theorem file_statementsF f :
+  Forall item_okF f ->
   read_all default_cfg (render_file f) = ROk (flat_map stmts_of (file_texts f)).
 Proof.
   intros H. unfold read_all.
@@ -713,10 +792,10 @@ Proof.
   - pose proof (count_le_length f H). lia.
 Qed.
 
-Theorem layout_invariance f1 f2 :
-  Forall item_ok f1 -> Forall item_ok f2 -> file_texts f1 = file_texts f2 ->
+Theorem layout_invarianceF f1 f2 :
+  Forall item_okF f1 -> Forall item_okF f2 -> file_texts f1 = file_texts f2 ->
   read_all default_cfg (render_file f1) = read_all default_cfg (render_file f2).
-Proof. intros H1 H2 E. rewrite !file_statements by assumption. now rewrite E. Qed.
+Proof. intros H1 H2 E. rewrite !file_statementsF by assumption. now rewrite E. Qed.
 
 (* with '&'-led continuation only, the character stream is the plain concatenation of the
    segment texts: cuts are invisible *)
@@ -734,96 +813,36 @@ Proof.
   intros H. cbn [joined]. rewrite joined_from_amp by assumption. reflexivity.
 Qed.
 
-(* ---------- the full statement, its two known exceptions, and witnesses ---------- *)
+(* ---------- the narrower class (compatibility), the full statement, examples ---------- *)
 
-(* Fortran's own rule for where commentary may stand: after a continued or final line whose end
-   lies outside a literal (wherever the line started), and as a comment line between any two lines
-   of a continued statement. *)
-Definition bline_okF (b : bline) : Prop :=
-  match b with BBlank _ => True | BComment _ t => plain_comment t end.
-Definition seg_okF (st : option ascii) (first last : bool) (sg : seg) : Prop :=
-  let st' := qrun st (sg_text sg) in
-  st_ok st /\
-  bang_free st (sg_text sg) = true /\
-  match sg_comment sg with Some t => st' = None /\ plain_comment t | None => True end /\
-  (last = false -> Forall bline_okF (sg_between sg)) /\
-  (first = true -> head_ok (sg_text sg) /\ head_is semi (sg_text sg) = false) /\
-  (first = false -> sg_amp sg = false -> head_ok (sg_text sg)) /\
-  (last = true -> nslast (sg_text sg) /\ last_is amp (sg_text sg) = false).
-Fixpoint segs_okF (st : option ascii) (first : bool) (l : list seg) : Prop :=
-  match l with
-  | [] => False
-  | [sg] => seg_okF st first true sg
-  | sg :: l' => seg_okF st first false sg /\ segs_okF (qrun st (sg_text sg)) false l'
-  end.
-Definition item_okF (it : fitem) : Prop :=
-  match it with
-  | FBlank _ => True
-  | FComment _ t => plain_comment t
-  | FLine segs => segs_okF None true segs
-  end.
+(* the same two theorems in the shape they had before commentary after / inside a continued
+   literal was recognised (used by Lex/FixedProofs.v) *)
+Corollary file_statements f :
+  Forall item_ok f ->
+  read_all default_cfg (render_file f) = ROk (flat_map stmts_of (file_texts f)).
+Proof. intros H. apply file_statementsF. eapply Forall_impl; [|exact H]. apply item_ok_okF. Qed.
 
-(* region 1: a comment on a line that started inside a literal;
-   region 2: a comment line while a literal is being continued *)
-Definition has_comment_line (bl : list bline) : bool :=
-  existsb (fun b => match b with BComment _ _ => true | BBlank _ => false end) bl.
-Definition is_some {A} (o : option A) : bool := match o with Some _ => true | None => false end.
-Fixpoint in_region (st : option ascii) (l : list seg) : bool :=
-  match l with
-  | [] => false
-  | sg :: l' =>
-    let st' := qrun st (sg_text sg) in
-    (is_some (sg_comment sg) && is_some st)
-    || (match l' with [] => false | _ => has_comment_line (sg_between sg) && is_some st' end)
-    || in_region st' l'
-  end.
-Definition item_region (it : fitem) : bool :=
-  match it with FLine segs => in_region None segs | _ => false end.
+Corollary layout_invariance f1 f2 :
+  Forall item_ok f1 -> Forall item_ok f2 -> file_texts f1 = file_texts f2 ->
+  read_all default_cfg (render_file f1) = read_all default_cfg (render_file f2).
+Proof. intros H1 H2 E. rewrite !file_statements by assumption. now rewrite E. Qed.
 
-Lemma segs_okF_ok segs : forall st first,
-  segs_okF st first segs -> in_region st segs = false -> segs_ok st first segs.
-Proof.
-  induction segs as [|sg segs IH]; intros st first H R; [exact H|].
-  cbn [in_region] in R. apply orb_false_iff in R as [R R3]. apply orb_false_iff in R as [R1 R2].
-  assert (Hsg : forall last, seg_okF st first last sg ->
-                (last = false -> has_comment_line (sg_between sg) && is_some (qrun st (sg_text sg)) = false) ->
-                seg_ok st first last sg).
-  { intros last (A & B & C & D & E & F & G) Hb.
-    split; [exact A|]. split; [exact B|]. split; [|split; [|split; [|split]; assumption]].
-    - destruct (sg_comment sg) as [t|]; [|exact I]. destruct C as (C1 & C2).
-      split; [|auto]. simpl in R1. destruct st; [discriminate|reflexivity].
-    - intros Hl. specialize (D Hl). specialize (Hb Hl).
-      rewrite Forall_forall in *. intros b Hin. specialize (D b Hin).
-      destruct b as [n|i t]; [exact I|]. simpl in D. split; [|exact D].
-      apply andb_false_iff in Hb as [Hb|Hb].
-      + exfalso. unfold has_comment_line in Hb. rewrite <- not_true_iff_false in Hb. apply Hb.
-        apply existsb_exists. exists (BComment i t). auto.
-      + destruct (qrun st (sg_text sg)); [discriminate|reflexivity]. }
-  destruct segs as [|sg2 segs].
-  - cbn [segs_okF segs_ok] in *. apply Hsg; [exact H|discriminate].
-  - destruct H as (H1 & H2). split.
-    + apply Hsg; [exact H1|]. intros _. exact R2.
-    + apply IH; assumption.
-Qed.
-
+(* the full statement of the property for the reader: commentary wherever Fortran allows it *)
 Definition statement_C02 : Prop :=
   forall f, Forall item_okF f ->
   read_all default_cfg (render_file f) = ROk (flat_map stmts_of (file_texts f)).
 
-Theorem partial_C02 f :
-  Forall item_okF f -> Forall (fun it => item_region it = false) f ->
-  read_all default_cfg (render_file f) = ROk (flat_map stmts_of (file_texts f)).
-Proof.
-  intros H R. apply file_statements.
-  rewrite Forall_forall in *. intros it Hin. specialize (H it Hin). specialize (R it Hin).
-  destruct it as [n|i t|segs]; simpl in *; auto. now apply segs_okF_ok.
-Qed.
+Theorem statement_C02_holds : statement_C02.
+Proof. exact file_statementsF. Qed.
 
 Definition mkseg (i : nat) (t : str) (tr : nat) (c : option str) (b : list bline) : seg :=
   {| sg_amp := true; sg_ind := i; sg_text := t; sg_trail := tr; sg_comment := c; sg_between := b |}.
 Definition mkseg0 (i : nat) (t : str) (tr : nat) (c : option str) (b : list bline) : seg :=
   {| sg_amp := false; sg_ind := i; sg_text := t; sg_trail := tr; sg_comment := c; sg_between := b |}.
 
+(* the two layouts on which the reader used to fail (a comment after the closing quote of a
+   literal continued from the previous line; a comment line between the lines of a continued
+   literal): both are in the class and yield the statement of the specification *)
 (* x = 'abc&  /  &def' ! comment *)
 Definition witness1 : list fitem :=
   [FLine [mkseg 0 (s "x = 'abc") 0 None []; mkseg 2 (s "def'") 1 (Some (s " comment")) []]].
@@ -839,14 +858,16 @@ Proof. repeat constructor; ok_tac. Qed.
 Lemma witness2_okF : Forall item_okF witness2.
 Proof. repeat constructor; ok_tac. Qed.
 
-Theorem refuted_comment_after_literal : ~ statement_C02.
-Proof.
-  intros H. specialize (H witness1 witness1_okF). vm_compute in H. discriminate.
-Qed.
-Theorem refuted_comment_in_literal : ~ statement_C02.
-Proof.
-  intros H. specialize (H witness2 witness2_okF). vm_compute in H. discriminate.
-Qed.
+Example repaired_comment_after_literal :
+  render_file witness1 = [s "x = 'abc&"; s "  &def' ! comment"] /\
+  flat_map stmts_of (file_texts witness1) = [s "x = 'abcdef'"] /\
+  read_all default_cfg (render_file witness1) = ROk [s "x = 'abcdef'"].
+Proof. repeat split; vm_compute; reflexivity. Qed.
+Example repaired_comment_in_literal :
+  render_file witness2 = [s "x = 'abc&"; s "! note"; s "  &def'"] /\
+  flat_map stmts_of (file_texts witness2) = [s "x = 'abcdef'"] /\
+  read_all default_cfg (render_file witness2) = ROk [s "x = 'abcdef'"].
+Proof. repeat split; vm_compute; reflexivity. Qed.
 
 (* non-vacuity: a layout with a literal holding ! ; & and a doubled quote, cut inside the literal
    and inside a token, with trailing comment, blank and comment lines in between *)
@@ -865,4 +886,31 @@ Example example_file_ok :
 Proof.
   split; [|vm_compute; reflexivity].
   repeat constructor; ok_tac.
+Qed.
+
+(* ... and one that needs the full class: comment and blank lines between the lines of a continued
+   literal (the comment's text holding the literal's delimiter), a comment after the literal is
+   closed on a line that started inside it, a line that starts inside one literal and ends inside
+   the next *)
+Definition example_fileF : list fitem :=
+  [FLine [mkseg 1 (s "s = ""it's !&") 1 None [BComment 2 (s " isn't ""code"""); BBlank 1; BComment 0 (s "")];
+          mkseg 3 (s " ; "" // 'a") 0 None [BComment 0 (s " 'x")];
+          mkseg 0 (s "b' ; t = 1") 2 (Some (s " 'done' ""!"))
+                [BComment 1 (s " after")];
+          mkseg0 2 (s "+ 2") 0 (Some (s "")) []];
+   FComment 0 (s " end")].
+
+Example example_fileF_ok :
+  Forall item_okF example_fileF /\ ~ Forall item_ok example_fileF /\
+  render_file example_fileF
+  = [s " s = ""it's !&& "; s "  ! isn't ""code"""; s " "; s "!"; s "   & ; "" // 'a&"; s "! 'x";
+     s "&b' ; t = 1&  ! 'done' ""!"; s " ! after"; s "  + 2!"; s "! end"] /\
+  read_all default_cfg (render_file example_fileF)
+  = ROk [s "s = ""it's !& ; "" // 'ab'"; s "t = 1 + 2"].
+Proof.
+  split; [repeat constructor; ok_tac|].
+  split; [|split; vm_compute; reflexivity].
+  intros H. inversion H as [|? ? H1 _]; subst. simpl in H1.
+  destruct H1 as ((_ & _ & _ & Hb & _) & _). specialize (Hb eq_refl).
+  inversion Hb as [|? ? Hc _]; subst. destruct Hc as (Hc & _). discriminate Hc.
 Qed.
